@@ -217,6 +217,10 @@ def run(ck: core.Check):
                                [(1200, False), (1200, True), (3000, False), (3000, True), (5000, False)]):
         cp = lf.gen_chain_program(rng, n_, in_body)
         cases.append((cp, lf.chain_requests(cp)))
+    # ---- size in breadth: > 100 inputs, > 50 outputs
+    for _ in range(ck.pick(2, 8)):
+        wp, wreqs = lf.gen_wide_program(rng, rng.choice([110, 120, 150]))
+        cases.append((wp, wreqs))
     # ---- If nested 5-7 deep and inlined models with very long internal names (long generated names)
     for _ in range(ck.pick(6, 40)):
         lp, lreq = lf.gen_long_name_program(rng)
@@ -254,8 +258,8 @@ def run(ck: core.Check):
             k += 1
             big = prog["n"] > 400   # the evaluator and the statistics below recurse along dependency chains
             with_values = (k % ck.pick(3, 2)) == 0 and not big
-            if "chain" in prog:
-                stats["chains"] = stats.get("chains", 0) + 1
+            if "chain" in prog or "wide" in prog:
+                stats["chains" if "chain" in prog else "wide"] = stats.get("chains" if "chain" in prog else "wide", 0) + 1
             bad, got = oracle_inproc(prog, req, env, with_values=with_values, feed_seed=k)
             if len(got) == 3:
                 stats["runtime_refused"] += 1
